@@ -114,6 +114,11 @@ def c09_scenarios(tier, rng):
                 out.append(dict(id=sid, n=nchild, type="sofo", strategy=strategy, keeporder=False, autoshutdown=False, sig=[False] * nchild,
                                 intensity=I, period=30, clock=True,
                                 steps=[{"op": "batch", "faults": [[1, "abn"]]}] * I + [{"op": "advance", "ms": 31000}, {"op": "batch", "faults": [[1, "abn"]]}]))
+    # long periods (the clock is virtual, so they cost nothing): the period is a 16-bit number of seconds, the window is counted in milliseconds
+    for I in (1, 2):
+        for P in (65, 66, 132, 600, 65535):
+            for gaps in ([700] * I, [P * 1000 - 1] * I, [P * 1000 - 1] * (I - 1) + [700], [P * 1000 + 1] + [700] * I, [40000] * I):
+                pats.append((I, P, tuple(gaps)))
     for typ in ["ofo", "afo", "rfo", "sofo"]:
         for (I, P, gaps) in pats:
             for nchild in ([1, 3] if tier == "thorough" else [3]):
